@@ -3,7 +3,8 @@ import Driver.C03
 /-
 C10 driver channel.
 
-  c10 mon <bp|pb|bb> <seed>,<k> <pre> <run> <follow>     (op syntax as in channel c03)
+  c10 mon <bp|pb|bb|bfp> <spec> <pre> <run> <follow>     (op syntax as in channel c03)
+     bfp    = forget + one or two prunes while a backup is parked (run contains the forget's snapshot removals)
      run    = interleaved storage operations of command A (parked before its k-th operation) and command B
      follow = operations of the follow-up prune
   observation `ok` iff the pre-state is consistent, after EVERY prefix of `run` nothing a visible snapshot needs is lost
@@ -26,7 +27,7 @@ def handle : List String → String
   | ["mon", kind, _spec, pre, run, follow] =>
     match Driver.C03.parseOps pre, Driver.C03.parseOps run, Driver.C03.parseOps follow with
     | some pre, some run, some follow =>
-      if !(kind == "bp" || kind == "pb" || kind == "bb") then "bad-op" else
+      if !(kind == "bp" || kind == "pb" || kind == "bb" || kind == "bfp") then "bad-op" else
       let r0 := applyAll {} pre
       if !consistent r0 then "bad:pre-inconsistent" else
       match firstLost (kind == "bb") r0 run with
